@@ -62,6 +62,29 @@ def search(pid, record):
                 return w
         return {"found": True, "scenario": "conn-search", "kind": "process-died",
                 "observed": "replayer conn-search exited with %d: %s" % (p.returncode, p.stderr[-400:]), "expected": "no panic"}
+    if record.get("file", "").startswith("src/storage/"):
+        seed = os.environ.get("VERIF_SEED", "0") or "0"
+        p = _run(binary, ["store-search", seed], timeout=600)
+        last = None
+        for line in p.stdout.splitlines():
+            if line.startswith("{"):
+                last = json.loads(line)
+        if p.returncode != 0:
+            return {"found": True, "scenario": "store-search", "seed": seed, "kind": "process-died",
+                    "observed": "replayer store-search exited with %d: %s" % (p.returncode, p.stderr[-500:]), "expected": "no panic / abort"}
+        if last and last.get("found"):
+            last["scenario"] = "store-search"
+            last["seed"] = seed
+            return last
+        if pid in ("C20", "C03"):
+            t = _run(binary, ["store-torn-append"])
+            for line in t.stdout.splitlines():
+                if line.startswith("{"):
+                    w = json.loads(line)
+                    if w.get("found"):
+                        w["scenario"] = "store-torn-append"
+                        return w
+        return last or {"found": False}
     return {"found": False, "searched": "no witness generator for this obligation"}
 
 
@@ -76,6 +99,11 @@ def execute(w):
     if w.get("scenario") == "frame-deep":
         d = _run(binary, ["frame-deep", str(w.get("depth", 200000))])
         return d.returncode == 0, "frame-deep exit status %d %s" % (d.returncode, d.stdout.strip()[:300])
+    if w.get("scenario") in ("store-search", "store-torn-append"):
+        args = ["store-search", str(w.get("seed", "0"))] if w["scenario"] == "store-search" else ["store-torn-append"]
+        p = _run(binary, args, timeout=600)
+        found = p.returncode != 0 or any(l.startswith("{") and json.loads(l).get("found") for l in p.stdout.splitlines())
+        return (not found), p.stdout.strip()[-700:]
     if w.get("scenario") == "conn-search":
         p = _run(binary, ["conn-search"])
         found = p.returncode != 0 or any(l.startswith("{") and json.loads(l).get("found") for l in p.stdout.splitlines())
